@@ -50,6 +50,9 @@ def sig_of(rej, scn):
     kind = "backpressure" if d.get("Wire") else "sched" if d.get("Sched") else "plain"
     if cuts_scalar(d.get("Chunks") or []):
         kind += "-cutscalar"
+    if why == "timing" and rej.get("known"):
+        # the oracle's own diagnosis: the run matches once C02's recorded finding is tolerated
+        return "C08:items:" + rej["known"]
     if why == "timing":
         at = rej.get("at") or ["?", "?"]
         def t(x):
